@@ -442,6 +442,7 @@ func main() {
 	b.WriteString("]\n\nend Extracted\n")
 	writeIfChanged(filepath.Join(*outDir, "Locks.lean"), b.String())
 	extractRest()
+	translateAll(*repo, *outDir)
 	fmt.Printf("extracted %d lock tables\n", len(methods))
 }
 
